@@ -5,6 +5,7 @@ import (
 	"fmt"
 	"os"
 	"path/filepath"
+	"runtime/debug"
 	"sort"
 	"strconv"
 )
@@ -108,7 +109,16 @@ type Args struct {
 func runCase(a *Args, fn func(c *Ctx), i int, wantSample bool) *Ctx {
 	c := &Ctx{Prop: a.Prop, Tier: a.Tier, Flavor: a.Flavor, Mode: a.Mode, Seed: a.Seed, Case: i,
 		R: NewRng(a.Seed, HashStr(a.Prop), HashStr(a.Mode), uint64(i)), Cov: NewCov(), wantSample: wantSample}
-	fn(c)
+	func() {
+		// a panic that escapes the executor (a library call made directly by a case function) is a violation
+		// of the case, not the end of the child
+		defer func() {
+			if r := recover(); r != nil {
+				c.Fail(Violation{Kind: "uncaught.panic", Msg: fmt.Sprintf("library call panicked outside the op executor: %v\n%s", r, debug.Stack())}, nil)
+			}
+		}()
+		fn(c)
+	}()
 	return c
 }
 
